@@ -617,7 +617,7 @@ func (c *Ctx) execBodyEdges(fr *Frame, st *State, reach T) (*State, T, Val, []re
 			var goals []T
 			for _, be := range bs {
 				if v, ok := be.st.locals[localKey{fr.id, ri}]; ok {
-					goals = append(goals, and(ge(v.one(), num(-1)), lt(v.one(), maxLenTerm)))
+					goals = append(goals, and(ge(v.one(), num(-1)), lt(v.one(), maxLenTerm), c.rangeBound(fr, h, v.one())))
 				} else {
 					goals = append(goals, "true")
 				}
@@ -726,6 +726,22 @@ func loopKey(c *Ctx, fr *Frame, h *ssa.BasicBlock) string {
 	return fmt.Sprintf("%d/%d", fr.id, h.Index)
 }
 
+// rangeBound: the hidden index never passes the length the loop compares it with
+// (index + 1 <= len; the length is computed once, before the loop).
+func (c *Ctx) rangeBound(fr *Frame, h *ssa.BasicBlock, idx T) T {
+	for _, ins := range h.Instrs {
+		if b, ok := ins.(*ssa.BinOp); ok && b.Op == token.LSS {
+			if _, inEnv := fr.env[b.Y]; inEnv {
+				return le(add(idx, "1"), fr.val(c, b.Y).one())
+			}
+			if k, isConst := b.Y.(*ssa.Const); isConst {
+				return le(add(idx, "1"), fr.val(c, k).one())
+			}
+		}
+	}
+	return "true"
+}
+
 // rangeIndexOf: the hidden index variable of a `for range` loop over a slice.
 func rangeIndexOf(h *ssa.BasicBlock) *ssa.Alloc {
 	for _, ins := range h.Instrs {
@@ -807,7 +823,7 @@ func (c *Ctx) enterLoop(fr *Frame, h *ssa.BasicBlock, ord int, st *State, reach 
 	// construction of the loop; asserted again at the back edge)
 	if ri := rangeIndexOf(h); ri != nil {
 		if v, ok := cur.locals[localKey{fr.id, ri}]; ok {
-			c.sc.assume(imp(reach, and(ge(v.one(), num(-1)), lt(v.one(), maxLenTerm))))
+			c.sc.assume(imp(reach, and(ge(v.one(), num(-1)), lt(v.one(), maxLenTerm), c.rangeBound(fr, h, v.one()))))
 		}
 	}
 	// 3. assume the invariant for an arbitrary iteration
